@@ -39,6 +39,17 @@ fn build<const N: usize>(arr: &[u8], tag: u8) -> Box<Canary<Set<Kx, N>>> {
     for k in arr {
         bx.c.insert(Kx::new(*k, tag));
     }
+    if mc::mapsys::stale() {
+        // dead slots hold stale copies of destroyed elements (fill with keys outside the universe, pop them)
+        let free = N - bx.c.len().min(N);
+        let codes: Vec<u8> = (40..40 + free as u8).collect();
+        for c in &codes {
+            bx.c.insert(Kx::new(*c, tag));
+        }
+        for c in codes.iter().rev() {
+            bx.c.remove::<u8>(c);
+        }
+    }
     bx
 }
 
